@@ -129,9 +129,20 @@ struct Accepted {
     per_client: BTreeMap<Cid, Vec<(Sid, Sid, Vec<u8>)>>,
 }
 
-struct Worker {
+/// A pre-existing database the exploration starts from (E-CORPUS): the first `n` steps of every
+/// node's history are already contained in `files`, written by another build of the server.
+#[derive(Clone)]
+pub struct Base {
+    pub n: usize,
+    pub files: DirImage,
+    pub tab: SymTab,
+    pub model: Model,
+}
+
+pub struct Worker {
     suts: Vec<SymSut>,
-    params: SeqParams,
+    pub params: SeqParams,
+    pub base: Option<Base>,
 }
 
 fn create_client_via_storage(s: &mut SymSut, c: Cid) -> Result<(), String> {
@@ -395,7 +406,7 @@ struct SutState {
 }
 
 impl Worker {
-    fn new(params: &SeqParams) -> Worker {
+    pub fn new(params: &SeqParams) -> Worker {
         let suts = params
             .specs
             .iter()
@@ -410,6 +421,37 @@ impl Worker {
         Worker {
             suts,
             params: params.clone(),
+            base: None,
+        }
+    }
+
+    /// Current database files / symbol table of implementation `i` (E-CORPUS generator).
+    pub fn files_of(&self, i: usize) -> DirImage {
+        self.suts[i].sut.save_files()
+    }
+    pub fn tab_of(&self, i: usize) -> SymTab {
+        self.suts[i].tab.clone()
+    }
+    pub fn storage_of(&self, i: usize) -> std::sync::Arc<dyn taskchampion_sync_server_core::Storage> {
+        self.suts[i].sut.storage().clone()
+    }
+    /// Move every stored snapshot `days` further into the past (generator self-test only).
+    pub fn backdate(&mut self, i: usize, days: i64, n_clients: u8) {
+        for c in 0..n_clients {
+            let cu = self.suts[i].cuuid(c);
+            let st = self.suts[i].sut.storage().clone();
+            let _ = (|| -> anyhow::Result<()> {
+                let mut txn = st.txn(cu)?;
+                if let Some(cl) = txn.get_client()? {
+                    if let Some(mut s) = cl.snapshot {
+                        let data = txn.get_snapshot_data(s.version_id)?.unwrap_or_default();
+                        s.timestamp -= chrono::Duration::days(days);
+                        txn.set_snapshot(s, data)?;
+                        txn.commit()?;
+                    }
+                }
+                Ok(())
+            })();
         }
     }
 
@@ -428,12 +470,33 @@ impl Worker {
         check: bool,
     ) -> (bool, Accepted, Vec<SResp>) {
         let s = &mut self.suts[i];
-        s.reset();
         let mut acc = Accepted::default();
         let mut resps = vec![];
         let mut model = Model::new(self.params.cfg);
         let mut diverged = false;
-        for (k, st) in node.steps.iter().enumerate() {
+        let mut start = 0;
+        if let Some(b) = &self.base {
+            // start from the given database instead of an empty one
+            s.sut.restore_files(&b.files);
+            if let Err(e) = s.sut.reopen() {
+                findings.push(Finding { monitor: "C19", sut: s.name().to_string(), class: "does-not-open".into(), msg: format!("the database does not open: {e}"), history: node.history(), op: None });
+                return (true, acc, resps);
+            }
+            s.tab = b.tab.clone();
+            model = b.model.clone();
+            for (c, cl) in &model.clients {
+                for v in &cl.chain {
+                    acc.per_client.entry(*c).or_default().push((v.id, v.parent, v.data.clone()));
+                }
+            }
+            start = b.n;
+            for _ in 0..start {
+                resps.push(SResp::Done);
+            }
+        } else {
+            s.reset();
+        }
+        for (k, st) in node.steps.iter().enumerate().skip(start) {
             let r = exec(s, &model, &st.sop, st.new_sid);
             // advance the model exactly as recorded
             match model_step(&mut model, &st.sop) {
@@ -497,7 +560,7 @@ impl Worker {
         }
     }
 
-    fn process(&mut self, node: &Node) -> (Vec<Finding>, Vec<(String, Node)>, Stats, bool) {
+    pub fn process(&mut self, node: &Node) -> (Vec<Finding>, Vec<(String, Node)>, Stats, bool) {
         let mut findings: Vec<Finding> = vec![];
         let mut stats = Stats::default();
         stats.states = 1;
@@ -1206,7 +1269,7 @@ impl Worker {
 // ---------------------------------------------------------------------------------------------
 // (de)serialisation for the worker-process protocol
 
-const MONITORS: &[&str] = &["C01", "C02", "C07", "C08", "C09", "C10", "C11", "C12", "C13", "C14", "C16", "C18", "C20", "REPLAY", "MACHINERY", "ENV"];
+const MONITORS: &[&str] = &["C01", "C02", "C07", "C08", "C09", "C10", "C11", "C12", "C13", "C14", "C16", "C18", "C19", "C20", "REPLAY", "MACHINERY", "ENV"];
 
 fn static_mon(s: &str) -> &'static str {
     MONITORS.iter().find(|m| **m == s).copied().unwrap_or("MACHINERY")
